@@ -7,7 +7,7 @@ R6 all-pairs/disjoint helpers enumerate complete index sets.
 import ast
 import itertools
 
-from sa.astutil import (effective, call_name, calls_in, dotted, enclosing_function, facts_at,
+from sa.astutil import (effective, stores_in, call_name, calls_in, dotted, enclosing_function, facts_at,
                         guards_of, norm, walk_no_nested, fact_texts, last_attr)
 from sa.consteval import ConstEval, UNKNOWN, eval_init
 from sa.loader import AnalysisError
@@ -99,14 +99,19 @@ def cell_list(ctx, rule):
            'each cell is passed once, unconditionally, to the all-pairs routine',
            mod, outer)
     # neighbour lookup boxes[x+dx, y+dy, z+dz]
+    # (subscript under try/except KeyError, or .get() followed by a test of the result)
     lookup = None
+    lookup_key = None
     for node in ast.walk(loop):
         if isinstance(node, ast.Subscript) and dotted(node.value) == boxes_name:
-            lookup = node
+            lookup, lookup_key = node, node.slice
+        elif isinstance(node, ast.Call) and last_attr(node) == 'get' and isinstance(node.func, ast.Attribute) \
+                and dotted(node.func.value) == boxes_name and len(node.args) == 1 and not node.keywords:
+            lookup, lookup_key = node, node.args[0]
     lk_ok = False
-    if lookup is not None and isinstance(lookup.slice, ast.Tuple) and len(lookup.slice.elts) == 3:
+    if lookup is not None and isinstance(lookup_key, ast.Tuple) and len(lookup_key.elts) == 3:
         lk_ok = True
-        for i, elt in enumerate(lookup.slice.elts):
+        for i, elt in enumerate(lookup_key.elts):
             want = {cell_vars[i], off_vars[i]} if len(cell_vars) == 3 and len(off_vars) == 3 else None
             if not (isinstance(elt, ast.BinOp) and isinstance(elt.op, ast.Add)
                     and {norm(elt.left), norm(elt.right)} == want):
@@ -133,9 +138,14 @@ def cell_list(ctx, rule):
     handlers = [h for h in ast.walk(loop) if isinstance(h, ast.ExceptHandler)]
     h_ok = all(norm(h.type) == 'KeyError' and len(effective(h.body)) == 1
                and isinstance(effective(h.body)[0], ast.Continue) for h in handlers)
+    if isinstance(lookup, ast.Call) and len(cross) == 1:
+        # .get(): the result is None for a missing cell; the pair routine is reached
+        # only when it is not
+        h_ok = h_ok and any(p and t in ('%s is not None' % nb_name, nb_name)
+                            for t, p in fact_texts(cross[0], loop))
     ctx.ob(rule('R1'), 'cells:missing-neighbour-skipped', h_ok and len(handlers) <= 1,
-           'only the KeyError of a missing neighbour cell is caught, and it only skips',
-           mod, loop)
+           'only the KeyError of a missing neighbour cell is caught (or the None of a .get() is '
+           'tested), and it only skips', mod, loop)
     # every atom is put into exactly one cell
     fill = None
     for node in walk_no_nested(fn):
@@ -146,6 +156,7 @@ def cell_list(ctx, rule):
             fill = node
     fill_ok = False
     key_vars = []
+    key_nodes = []
     if fill is not None and isinstance(fill.target, ast.Name):
         atom_var = fill.target.id
         for stmt in fill.body:
@@ -154,10 +165,18 @@ def cell_list(ctx, rule):
                         and stmt in fill.body:
                     inner = call.func.value
                     if isinstance(inner, ast.Call) and last_attr(inner) == 'setdefault' \
-                            and dotted(inner.func.value) == boxes_name \
-                            and isinstance(inner.args[0], ast.Tuple):
-                        key_vars = [norm(e) for e in inner.args[0].elts]
-                        fill_ok = True
+                            and dotted(inner.func.value) == boxes_name:
+                        key = inner.args[0]
+                        if isinstance(key, ast.Name):
+                            kdefs = [s_ for s_ in fill.body if isinstance(s_, ast.Assign)
+                                     and norm(s_.targets[0]) == key.id]
+                            if len(kdefs) == 1 and len([1 for s_, t_ in stores_in(fill)
+                                                        if norm(t_) == key.id]) == 1:
+                                key = kdefs[0].value
+                        if isinstance(key, ast.Tuple):
+                            key_nodes = list(key.elts)
+                            key_vars = [norm(e) for e in key.elts]
+                            fill_ok = True
     ctx.ob(rule('R1'), 'cells:every-atom-binned', fill_ok,
            'every atom of the input list is appended, unconditionally, to the cell '
            'keyed by its index triple', mod, fill or fn)
@@ -167,10 +186,17 @@ def cell_list(ctx, rule):
     divisors = set()
     divisor_nodes = []
     if fill is not None:
-        for kv in key_vars:
+        for kv, knode in zip(key_vars, key_nodes):
             defs = [s for s in fill.body if isinstance(s, ast.Assign)
                     and isinstance(s.targets[0], ast.Name) and s.targets[0].id == kv]
             ok, axis, why = False, None, 'no single definition'
+            if not isinstance(knode, ast.Name):
+                # the component is written in the key itself
+                class _Def:
+                    pass
+                d_ = _Def()
+                d_.value = knode
+                defs = [d_]
             if len(defs) == 1:
                 val = defs[0].value
                 quot = None
@@ -193,7 +219,7 @@ def cell_list(ctx, rule):
             ctx.ob(rule('R3'), 'cell-index:' + kv, ok,
                    'cell index is floor(coordinate / cell edge) (truncation or rounding '
                    'mis-bins negative coordinates)' + ('' if ok else ' - ' + why),
-                   mod, defs[0] if defs else fill)
+                   mod, (defs[0] if isinstance(defs[0], ast.AST) else knode) if defs else fill)
             axes_seen.append(axis)
         ctx.ob(rule('R3'), 'cell-index:axes', sorted(a for a in axes_seen if a) == ['x', 'y', 'z'],
                'the three index components use the three distinct coordinates', mod, fill)
